@@ -163,8 +163,8 @@ PROPS = {
         "theorems": ["MRL.C11.io_reported", "MRL.C11.io_irrelevant_beyond", "MRL.C11.never_partial",
                      "MRL.C11.fault_never_ok_on_bad_image", "MRL.C11.fault_outcomes", "MRL.C11.ioCalls_bounded"],
         "examples": 5,
-        "kinds": "OS",
-        "campaigns": {"quick": [("fault", 12, 60)], "thorough": [("fault", 150, 120)]},
+        "kinds": "OSD",
+        "campaigns": {"quick": [("fault", 12, 60), ("crash-fault", 16, 50)], "thorough": [("fault", 150, 120), ("crash-fault", 200, 80)]},
         "rule": "fault campaign (hook H3): for a WAL image spanning 1-5 files, an I/O error (six kinds, transient or persistent) injected at "
                 "every index of the list/open/read calls recovery makes, plus two beyond; oracle: Err(Io) iff the index is reached, else the "
                 "fault-free log; 20 s watchdog",
@@ -260,7 +260,7 @@ PROPS = {
         "examples": 2,
         "modules": ["MRL.Props.C18", "MRL.Props.C18Restart", "MRL.Props.C18Crash"],
         "kinds": "ORSG",
-        "campaigns": {"quick": [("projection", 8, 70)], "thorough": [("projection", 120, 160), ("crash", 40, 80)]},
+        "campaigns": {"quick": [("projection", 24, 110)], "thorough": [("projection", 160, 160), ("crash", 40, 80)]},
         "rule": "a history over 2-4 queues and, for each queue, its projection (calls addressed to it, restarts and persists kept) run on the "
                 "real library; oracle: the queue's records/next position after every kept call and the logical outcomes are identical; "
                 "non-trivial = a file was unlinked while another queue still had records",
